@@ -236,4 +236,63 @@ example : (evalA constFree (fun _ => none) (.nary .sub [.real ⟨10, 1⟩, .real
 example : (evalA constFree (fun _ => none) (.nary .div [.real ⟨12, 1⟩, .real ⟨3, 1⟩, .real ⟨2, 1⟩])).toOption.map (fun l => Lin.toStr l) = some "2" := by
   decide +kernel
 
+
+/-! ## what is rejected (after the repair of /repo: `x * y`, `3 / x`, `x / 0` are reported, not asserted) -/
+
+/-- a quotient is accepted only when every divisor is a constant different from zero -/
+theorem C16E_div_accepts_only_nonzero_constants (c : ConstOf) (ls : List Lin) (l : Lin) (h : divAll c ls = .ok l) :
+    ∀ d ∈ ls.tail, ∃ k, c d = some k ∧ k.isZero = false := by
+  have key : ∀ ds : List Lin, divCheck c ds = none → ∀ d ∈ ds, ∃ k, c d = some k ∧ k.isZero = false := by
+    intro ds
+    induction ds with
+    | nil => intro _ d hd; simp at hd
+    | cons x xs ih =>
+      intro hch d hd
+      unfold divCheck at hch
+      cases hx : c x with
+      | none => simp [hx] at hch
+      | some k =>
+        simp only [hx] at hch
+        by_cases hz : k.isZero = true
+        · simp [hz] at hch
+        · simp only [hz] at hch
+          rcases List.mem_cons.1 hd with rfl | hd'
+          · exact ⟨k, hx, by simpa using hz⟩
+          · exact ih (by simpa using hch) d hd'
+  unfold divAll at h
+  split at h
+  · simp at h
+  · rename_i hn
+    exact key _ hn
+
+/-- the first offending divisor decides the error: not a constant = non-linear, zero = division by zero -/
+theorem C16E_div_rejects (c : ConstOf) (first : Lin) (ok : List Lin) (bad : Lin) (rest : List Lin)
+    (hok : ∀ d ∈ ok, ∃ k, c d = some k ∧ k.isZero = false) :
+    (c bad = none → divAll c (first :: (ok ++ bad :: rest)) = .error .nonLinear) ∧
+    (∀ k, c bad = some k → k.isZero = true → divAll c (first :: (ok ++ bad :: rest)) = .error .divZero) := by
+  have key : ∀ e, divCheck c (bad :: rest) = some e → divCheck c (ok ++ bad :: rest) = some e := by
+    intro e he
+    induction ok with
+    | nil => simpa using he
+    | cons x xs ih =>
+      obtain ⟨k, hk, hz⟩ := hok x List.mem_cons_self
+      simp only [List.cons_append, divCheck, hk, hz]
+      exact ih (fun d hd => hok d (List.mem_cons_of_mem _ hd))
+  constructor
+  · intro hb
+    have : divCheck c (bad :: rest) = some .nonLinear := by simp [divCheck, hb]
+    simp [divAll, key _ this]
+  · intro k hb hz
+    have : divCheck c (bad :: rest) = some .divZero := by simp [divCheck, hb, hz]
+    simp [divAll, key _ this]
+
+/-- a product with two factors that are not constants is rejected as non-linear - also when it is the same
+    expression twice (`x * x`) -/
+example : evalA constFree (fun n => if n == strInts "x" then some (Lin.var 3 R.one) else none)
+    (.nary .mul [.id [strInts "x"], .id [strInts "x"]]) = .error .nonLinear := by decide +kernel
+example : evalA constFree (fun n => if n == strInts "x" then some (Lin.var 3 R.one) else none)
+    (.nary .div [.id [strInts "x"], .real ⟨0, 1⟩]) = .error .divZero := by decide +kernel
+example : evalA constFree (fun n => if n == strInts "x" then some (Lin.var 3 R.one) else none)
+    (.nary .div [.real ⟨3, 1⟩, .id [strInts "x"]]) = .error .nonLinear := by decide +kernel
+
 end Oratio
